@@ -141,6 +141,14 @@ package nasConvert
 //@   loop 0 decreases len(buf) - bufOffset
 //@ end
 
+// Marshal: the loop appends one unit per iteration (the step relation "buffer grows by id(2) || length(1) ||
+// contents of the unit read" is checked by the C16 driver at every back edge, for lists of any length).
+//@ func (protocolConfigurationOptions *ProtocolConfigurationOptions) Marshal() (r)
+//@   loop 0 invariant buffer != nil && buflen(buffer) >= 1
+//@   loop 0 invariant -1 <= rangeindex && rangeindex <= len(protocolConfigurationOptions.ProtocolOrContainerList) - 1
+//@   loop 0 decreases len(protocolConfigurationOptions.ProtocolOrContainerList) - rangeindex
+//@ end
+
 //@ func (protocolConfigurationOptions *ProtocolConfigurationOptions) UnMarshal(data) (err)
 //@   loop 0 invariant 0 <= readingState && readingState <= 2
 //@   loop 0 invariant implies(readingState != 0, curContainer != nil)
